@@ -35,13 +35,17 @@ NAMES = [["alpha", "dataset_name", "a", "lr"], ["beta", "tfds_dir", "b", "moment
 CAND_NAMES = ["dataset_name", "user_id"]     # primary-key candidates by name (C05)
 INT_POS = [5, 1, 42, 100]
 INT_NEG = [-3, -1, -42]
-FLOAT_POS = [0.5, 0.001, 2.5]
+FLOAT_POS = [0.5, 0.001, 2.5, 1.0]      # 1.0 == True == 1: equal values of different types (a cache keyed by equality confuses them)
 FLOAT_NEG = [-0.5, -2.25]
-STRS = ["mnist", "adam", "x_y"]
+STRS = ["mnist", "adam", "x_y", "r"]        # "r": a string of ONE character (the shortest string that still needs its quotes)
 
 
 LONG_LEN = [120]        # the length a "long" description is cut to (swept by conv.judge_case)
 NAME_COLS = [None]      # restrict the identifier pool to these columns (C05: no `*_id` / `*_name` primary-key candidates)
+# how a plain description OPENS ("the <name>" everywhere; C05 varies it: a marker-stripping step must not eat an opener that merely
+# begins with one of the marker's characters).  The choice is a function of the name, so emitting and expecting agree.
+OPENERS = [None]
+SQL_OPENERS = ["the {}", "Primary {} of the record", "Key {} of the table", "[{}] as bracketed", "Per-{} setting", "K"]
 ALLOW_KEYS = [set()]     # extra entry keys the comparison tolerates (C05: the synthetic id's server_default)
 
 
@@ -124,6 +128,9 @@ class Gamma(object):
     def doc(self, c, name):
         if c == "absent":
             return False, None
+        if OPENERS[0] and c in ("plain", "dot", "pk", "fk"):
+            opener = OPENERS[0][sum(map(ord, name)) % len(OPENERS[0])].format(name)
+            return True, {"plain": "{}", "dot": "{}.", "pk": "[PK] {}", "fk": "[FK(other_tbl.id)] {}"}[c].format(opener)
         if c == "plain":
             return True, "the {}".format(name)
         if c == "dot":
@@ -147,6 +154,8 @@ class Gamma(object):
             return True, "the {}, one of `sgd` or `adam`".format(name)
         if c == "trig_default":
             return True, "the {}. Default: 5".format(name)
+        if c == "comma_default":
+            return True, "the {}, defaults to 5".format(name)
         if c == "doc_colon":
             return True, "the {}: see below".format(name)
         if c == "doc_paren":
